@@ -968,7 +968,7 @@ func RunHistAlias(r *Run) {
 			}
 			// the refilled object keeps whatever memory it had (possibly the caller's input buffer): it is treated
 			// like a no-copy result of that buffer; clones taken from it must be independent of everything
-			x.pj, x.model, x.nd, x.copy, x.invalid, x.edited = out, cloneRoots(src.model), src.nd, false, false, false
+			x.pj, x.model, x.nd, x.copy, x.invalid, x.edited, x.kept = out, cloneRoots(src.model), src.nd, false, false, false, nil
 			x.origin += " (refilled by Deserialize)"
 			trace = append(trace, "deserialize into '"+x.origin+"'")
 			interesting = true
